@@ -29,13 +29,29 @@ def load_known():
     return json.load(open(p)).get("findings", [])
 
 
+def _glob(text, pattern):
+    """'*' is the only wildcard (job and obligation names contain brackets, which fnmatch would read as classes)"""
+    parts = pattern.split("*")
+    if len(parts) == 1:
+        return text == pattern
+    if not text.startswith(parts[0]):
+        return False
+    pos = len(parts[0])
+    for p in parts[1:-1]:
+        i = text.find(p, pos)
+        if i < 0:
+            return False
+        pos = i + len(p)
+    return text.endswith(parts[-1]) and len(text) - len(parts[-1]) >= pos
+
+
 def match_known(known, prop, job, name):
     for k in known:
         if k.get("status", "known") != "known":
             continue
         if k["property"] != prop:
             continue
-        if fnmatch.fnmatchcase(job, k["job"]) and fnmatch.fnmatchcase(name, k["obligation"]):
+        if _glob(job, k["job"]) and _glob(name, k["obligation"]):
             return k
     return None
 
